@@ -39,6 +39,8 @@ RULE = ("a case = one connection: 1-6 requests (HTTP/1.0|1.1 x no Connection hea
         "HTTPError; 0-60 pieces incl. empty ones and pieces > socket buffer; Content-Length absent / exact / shorter / longer "
         "than produced; status str or int; duplicate header names). All sequences up to length 2 (quick) / 3 (thorough) over "
         "{4 request kinds} x {with, without Content-Length} x {burst, serial} are enumerated, the rest is random from VERIF_SEED. "
+        "Plus a fixed schedule of responses of 2*tcp_wmem[2]+2 MiB (Content-Length / chunked / close-delimited) to requests after which "
+        "the server closes, read by a slow client (SO_RCVBUF 16 KiB, bounded read per round). "
         "Non-trivial = at least two requests on the connection or a response without Content-Length; distinct = by the sequence of "
         "(version, connection header, app style, length mode, piece-count bucket, has-empty-piece) plus send mode.")
 ASSUMPTIONS = [
@@ -53,11 +55,12 @@ LEVEL_TEXT = ("Every response byte of every generated connection is parsed by a 
               "framing alphabet are enumerated, longer / richer ones are sampled. Held on what was observed; not a proof for all apps.")
 LEVEL_NOTE = "trusted: vf/models/httpref.py (~250 lines), the kernel loopback, the case generator's own model of 'persistent' (HTTP/1.1 without close, HTTP/1.0 with keep-alive)"
 NSHARDS = {"quick": 8, "thorough": 16}
-PEAK_COUNTERS = ("max_rounds_used",)
+PEAK_COUNTERS = ("max_rounds_used", "big_body_bytes")
 TIMEOUT_S = {"quick": 240, "thorough": 1500}
 BUDGET_S = {"quick": 25, "thorough": 400}
 REQUIRE = {"responses_judged": 500, "followed_response_self_delimiting_checks": 150, "eof_after_nonpersistent_checks": 100,
-           "stays_open_checks": 60, "clamp_checks": 15, "nolength_on_open_connection_cases": 50, "empty_pieces_scripted": 100}
+           "stays_open_checks": 60, "clamp_checks": 15, "nolength_on_open_connection_cases": 50, "empty_pieces_scripted": 100,
+           "big_nonkept_responses_complete_and_exact": 3, "rounds_with_unsent_response_bytes_in_server": 30}
 EXHAUSTIVE = {"quick": "all request sequences of length <= 2 over {1.1, 1.1 close, 1.0, 1.0 keep-alive} x {Content-Length, none} x {burst, serial}",
               "thorough": "all request sequences of length <= 3 over {1.1, 1.1 close, 1.0, 1.0 keep-alive} x {Content-Length, none} x {burst, serial}"}
 
@@ -71,6 +74,32 @@ STR_STATUS = ["200 OK", "201 Created", "202 Accepted", "400 Bad Request", "404 N
 INT_STATUS = [200, 201, 404, 500]
 ALPHA = "abcdefghijklmnopqrstuvwxyzABCDEFGHIJKLMNOPQRSTUVWXYZ0123456789"
 NASTY = ["\r\n", "\r\n\r\n", "0\r\n\r\n", "HTTP/1.1 200 OK\r\n", "\n", "\r", "\x00", "\xff", "Content-Length: 5\r\n", " ", ";", "5\r\n"]
+
+
+def _big_size():
+    """a response body larger than anything the kernel buffers between the server's send() and a slow reader:
+    the send buffer autotunes up to tcp_wmem[2]"""
+    try:
+        wmax = int(open("/proc/sys/net/ipv4/tcp_wmem").read().split()[2])
+    except Exception:
+        wmax = 4 << 20
+    return min(48 << 20, 2 * wmax + (2 << 20))
+
+
+def expand_piece(p):
+    """pieces are latin-1 str in a case; a multi-megabyte piece is stored as {"unit": str, "len": n}"""
+    if isinstance(p, dict):
+        unit = p["unit"]
+        return (unit * (p["len"] // len(unit) + 1))[:p["len"]]
+    return p
+
+
+def expand_req(r):
+    a = dict(r["app"])
+    for k in ("pieces", "wpieces"):
+        if k in a:
+            a[k] = [expand_piece(p) for p in a[k]]
+    return dict(r, app=a)
 
 
 def persistent(req):
@@ -186,6 +215,28 @@ def cases(tier, seed, shard, nshards):
                 if i % nshards == shard:
                     reqs = [simple_req(f"E{j}x{i}", KINDS[k], cl) for j, (k, cl) in enumerate(seq)]
                     yield {"kind": "enum", "mode": mode, "cuts": [], "reqs": reqs}
+                i += 1
+    # fixed schedule: responses of a few times the loopback send capacity to requests after which the server closes
+    # (HTTP/1.0, Connection: close, unframed reply to 1.0 keep-alive), read by a slow client (small SO_RCVBUF, bounded
+    # read per round): the close must wait for the last byte
+    big = _big_size()
+    combos = [(("1.0", None), "length"), (("1.1", "close"), "chunked"), (("1.0", "keep-alive"), "eof")]
+    if tier != "quick":
+        combos += [(("1.0", None), "eof"), (("1.1", "close"), "length"), (("1.1", "Close"), "chunked"), (("1.0", "close"), "length")]
+    for (ver, conn), framing in combos:
+        for style, npieces in (("list", 1), ("gen", 3)) if tier != "quick" else (("list", 1),):
+            for read_per_round in ((65536,) if tier == "quick" else (65536, 1 << 20)):
+                if i % nshards == shard:
+                    rid = f"B{i}"
+                    unit = f"<{rid}:0123456789abcdefghijklmnopqrstuvwxyzABCDEFGHIJKLMNOPQRSTUVWXYZ>\r\n"
+                    sizes = [big // npieces] * (npieces - 1) + [big - (big // npieces) * (npieces - 1)]
+                    hdrs = [["Content-Type", "application/octet-stream"], ["X-Id", rid]]
+                    if framing == "length":
+                        hdrs.append(["Content-Length", str(big)])
+                    req = {"id": rid, "ver": ver, "conn": conn, "method": "GET", "body": "",
+                           "app": {"style": style, "status": "200 OK", "headers": hdrs, "cl": big if framing == "length" else None,
+                                   "pieces": [{"unit": unit, "len": n_} for n_ in sizes], "wpieces": [], "ret": "", "pre": 0}}
+                    yield {"kind": "big", "mode": "burst", "cuts": [], "reqs": [req], "rcvbuf": 16384, "read_per_round": read_per_round}
                 i += 1
     rng = random.Random(f"{seed}:C18:{shard}")
     n = (1000 if tier == "quick" else 96000) // nshards
@@ -308,8 +359,11 @@ def open_server(ctx, app):
 class Conn:
     """Harness-owned raw client socket: records every received byte and end-of-stream."""
 
-    def __init__(self, port):
+    def __init__(self, port, rcvbuf=None, read_per_round=None):
+        self.read_per_round = read_per_round
         self.sock = socket.socket(socket.AF_INET, socket.SOCK_STREAM)
+        if rcvbuf:
+            self.sock.setsockopt(socket.SOL_SOCKET, socket.SO_RCVBUF, rcvbuf)   # before connect: fixes the window
         # the ephemeral port of this socket may fall into a harness port range: without SO_REUSEADDR its TIME_WAIT
         # would make a later bind() of a server to that port fail for a minute
         self.sock.setsockopt(socket.SOL_SOCKET, socket.SO_REUSEADDR, 1)
@@ -325,8 +379,10 @@ class Conn:
     def pump(self):
         got = 0
         while not self.eof:
+            if self.read_per_round and got >= self.read_per_round:
+                break               # a slow reader: the rest stays in the kernel until the next round
             try:
-                d = self.sock.recv(262144)
+                d = self.sock.recv(min(262144, self.read_per_round - got) if self.read_per_round else 262144)
             except (BlockingIOError, InterruptedError):
                 break
             except OSError as ex:
@@ -374,14 +430,14 @@ def kind_of(req):
 
 
 def run_case(case, ctx):
-    reqs = case["reqs"]
+    reqs = [expand_req(r) for r in case["reqs"]]
     script = {r["id"]: r for r in reqs}
     calls = []
     srv, port, tymist = open_server(ctx, make_app(script, calls))
     _state["nodelay"].clear()
     conn = None
     try:
-        conn = Conn(port)
+        conn = Conn(port, case.get("rcvbuf"), case.get("read_per_round"))
         _drive_and_judge(case, ctx, srv, tymist, conn, reqs, calls)
     finally:
         if conn is not None:
@@ -445,6 +501,9 @@ def _drive_and_judge(case, ctx, srv, tymist, conn, reqs, calls):
         for k, w in enumerate(wires):
             frags.append([w, k])
     budget = len(frags) + sum(cost(r) for r in reqs) + 4 * n + 12
+    if case.get("read_per_round"):
+        # slow reader: at least one window's worth leaves the kernel per round (the loop ends as soon as the stream is complete)
+        budget += sum(len(p) for r in reqs for p in r["app"].get("pieces", ())) // 2048 + 50
     trace = []
     ctx.count("connections")
     ctx.count("mode_" + mode)
@@ -459,7 +518,7 @@ def _drive_and_judge(case, ctx, srv, tymist, conn, reqs, calls):
         if len(conn.rx) > fed[0] or (conn.eof and not fed[1]):
             stream.feed(bytes(conn.rx[fed[0]:]), conn.eof)
             fed[0], fed[1] = len(conn.rx), conn.eof
-            parsed = stream.result()
+            parsed = stream.result(refresh=False)
         return got
 
     waited = 0          # rounds the serial sender has waited for the current gate
@@ -489,6 +548,8 @@ def _drive_and_judge(case, ctx, srv, tymist, conn, reqs, calls):
                 else:
                     frags[0][0] = data[sent:]
         alive = _service(ctx, srv, tymist, trace)
+        if calls and any(ix.txbs for ix in srv.servant.ixes.values()):
+            ctx.count("rounds_with_unsent_response_bytes_in_server")      # back-pressure was really there
         got = pump()
         if got or conn.eof:
             trace.append(["rx", rnd, got, "eof" if conn.eof else ""])
@@ -516,6 +577,7 @@ def _drive_and_judge(case, ctx, srv, tymist, conn, reqs, calls):
             if conn.eof:
                 break
         ctx.count("patience_phases")
+    parsed = stream.result()
     full = httpref.parse_responses(conn.rx, conn.eof, methods)     # one-shot parse must agree with the incremental one
     if (full["state"], len(full["responses"]), full["rest"]) != (parsed["state"], len(parsed["responses"]), parsed["rest"]):
         raise RuntimeError(f"httpref incremental/one-shot disagreement: {full['state']}/{len(full['responses'])} vs "
@@ -613,11 +675,19 @@ def _drive_and_judge(case, ctx, srv, tymist, conn, reqs, calls):
         if m.body != want_body:
             if cl is not None and m.body[:len(want_body)] == want_body and len(m.body) > len(want_body):
                 viol("body-exceeds-declared-content-length", f"response #{k}: declared {cl}, body on the wire has {len(m.body)} bytes")
+            elif m.framing == "eof" and want_body.startswith(m.body):
+                viol("close-delimited-body-truncated-by-the-close",
+                     f"response #{k}: the connection was closed after {len(m.body)} of {len(want_body)} body bytes of a response that "
+                     f"only the close delimits: the client takes the truncated body for complete")
             else:
                 viol("body-mismatch:" + str(m.framing),
                      f"response #{k}: body {len(m.body)} bytes {m.body[:80]!r}..., script says {len(want_body)} bytes {want_body[:80]!r}...")
         else:
             ctx.count("bodies_equal")
+            if case.get("kind") == "big":
+                ctx.count("big_nonkept_responses_complete_and_exact")
+                ctx.count("big_nonkept_framing_" + str(m.framing))
+                ctx.peak("big_body_bytes", len(m.body))
         # O3: followed by another response on this connection => self-delimiting.  (With a strict parser a
         # response that is followed by another one in the list necessarily had Content-Length/chunked/no-body.)
         if k + 1 < len(resps):
